@@ -51,6 +51,27 @@ def _legend_chunk(objs):
             header, rows = table.parse(buf.getvalue(), "csv")
             if header and (len(header) != 1 + n or any("normals" in h for h in header)):
                 out.append(("clim:table-columns", "%d scored inputs + climatology: the csv header is %r" % (n, header), rep))
+            # both options on one command line (not a documented combination): whatever the program makes of it -- the later one, the
+            # earlier one, or an error -- the operation applied must be the one given WITH the file that is used
+            other = os.path.join(d, "normals2.txt")
+            c2 = dict(o["clim"])
+            c2["fcst"] = [v if v == "nan" else ([v[0] + 2 * v[1], v[1]] if isinstance(v, list) else v + 2) for v in o["clim"]["fcst"]]
+            mat.write_text(other, c2)
+
+            def table_of(extra):
+                sys.stdout = b = io.StringIO()
+                try:
+                    verif.driver.run(["verif"] + paths + extra + ["-m", "mae", "-x", "leadtime", "-type", "csv"])
+                    return table.strip_warnings(b.getvalue())
+                except SystemExit:
+                    return "error exit"
+                finally:
+                    sys.stdout = old
+            with quiet():
+                both = table_of(["-C", climp, "-c", other])
+                allowed = [table_of(["-c", other]), table_of(["-C", climp]), "error exit"]
+            if both not in allowed:
+                out.append(("clim:both-options", "`-C normals.txt -c normals2.txt` prints neither the table of `-c normals2.txt` nor that of `-C normals.txt`: %r" % both[:200], rep))
         except Exception as e:
             out.append((exc_site(e), "legend of %d inputs + climatology: %r" % (n, e), rep))
     return len(objs), out
